@@ -63,6 +63,54 @@ func listSweep[T any](add func(string, ...any), tag string, n int, want []T, eq 
 			}
 		}
 	}
+	// a client may change the page size between pages: first page of a items, the rest in pages of b, following
+	// next_key, in both directions
+	for _, a := range []uint64{1, 2, 3} {
+		for _, b := range []uint64{1, 2, uint64(n) + 1} {
+			for _, rev := range []bool{false, true} {
+				if a == b {
+					continue
+				}
+				evals++
+				t := fmt.Sprintf("%s first page limit=%d then limit=%d key reverse=%v", tag, a, b, rev)
+				var got []T
+				pr := &query.PageRequest{Limit: a, Reverse: rev}
+				var err error
+				for guard := 0; guard < 10000; guard++ {
+					var its []T
+					var resp *query.PageResponse
+					its, resp, err = fetch(pr)
+					if err != nil {
+						break
+					}
+					got = append(got, its...)
+					if resp == nil || len(resp.NextKey) == 0 {
+						break
+					}
+					pr = &query.PageRequest{Key: resp.NextKey, Limit: b, Reverse: rev}
+				}
+				if err != nil {
+					add("%s failed: %v", t, err)
+					continue
+				}
+				if rev {
+					for i, j := 0, len(got)-1; i < j; i, j = i+1, j-1 {
+						got[i], got[j] = got[j], got[i]
+					}
+				}
+				if len(got) != len(want) {
+					add("%s returned %d items, %d stored items match the filter", t, len(got), len(want))
+					continue
+				}
+				for i := range got {
+					if !eq(got[i], want[i]) {
+						add("%s item %d is %v, expected %v (complete, duplicate-free, ascending)", t, i, got[i], want[i])
+						break
+					}
+				}
+			}
+		}
+	}
 	return evals
 }
 
